@@ -307,6 +307,8 @@ func checkC02(c *Ctx) {
 	r.Rule("C02/STORE/write", "AddMessage of each store moves message.Source() to its sink unmodified; Size() is defined from the stored bytes; Source() reads them back plainly")
 	r.Rule("C02/READ/source", "source endpoints: the reader from Manager.SourceReader reaches io.Copy(w, r) untouched; StoreManager.SourceReader returns the store message's Source()")
 	r.Rule("C02/POP3/lines", "POP3 streaming: Scanner over a message source has its token limit raised; each sent line is φ(line, \".\"+line) under HasPrefix(line, \".\"); \".\" terminator sent on every exit after streaming began; every consumer of a message source in the package is a Scanner (examined), Close, or a helper that is followed — ReadLine pieces are refused, anything else is undecided")
+	// the raw file is named by the id: two live messages with one id read back one body
+	c.fileIDUnique("C02/ID/file-unique")
 	m := c.smtp()
 	if !m.ok {
 		return
